@@ -162,15 +162,17 @@ func (cm *connManager) handleNewTCPConn(regManager *cj.RegistrationManager, clie
 	var err error
 	cc, err = regManager.GeoIP.CC(remoteIP)
 	if err != nil {
+		// A failed lookup says nothing about the connection: closing here would answer a
+		// prober at once instead of after the classification deadline below.
 		logger.Errorln("Failed to get CC:", err)
-		return
+		cc = "unk"
 	}
 	if cc != "unk" {
 		// logger.Infoln("CC not unk:", cc, "ASN:", asn) // TESTING
 		asn, err = regManager.GeoIP.ASN(remoteIP)
 		if err != nil {
 			logger.Errorln("Failed to get ASN:", err)
-			return
+			asn = 0
 		}
 	}
 	// logger.Infoln("CC:", cc, "ASN:", asn) // TESTING
